@@ -177,7 +177,8 @@ def run(prog, rep):
         if isinstance(n, ast.Call) and isinstance(n.func, ast.Name) and n.func.id == 'filter' and n.args and \
                 isinstance(n.args[0], ast.Lambda):
             filt = n
-        if isinstance(n, ast.ListComp) and n.generators and n.generators[0].ifs:
+        if isinstance(n, (ast.ListComp, ast.GeneratorExp)) and len(n.generators) == 1 and n.generators[0].ifs and \
+                isinstance(n.generators[0].target, ast.Name) and isinstance(n.elt, ast.Name) and n.elt.id == n.generators[0].target.id:
             filt = n
     if filt is None:
         raise AnalysisError(f'{fq}: candidate filter not found')
@@ -225,7 +226,7 @@ def run(prog, rep):
                 ast.unparse(n.func.value) == cand_name:
             ordering = n
         if isinstance(n, ast.Call) and isinstance(n.func, ast.Name) and n.func.id in ('sorted', 'min') and n.args and \
-                cand_name in ast.unparse(n.args[0]):
+                (cand_name in ast.unparse(n.args[0]) or any(x is filt for x in ast.walk(n.args[0]))):
             ordering = n
     rep.instance('R2', f'{fq}: ordering step {norm(ordering) if ordering is not None else None}')
 
